@@ -17,6 +17,10 @@ use prqlc_parser::parser::pr;
 static CURRENT_LOG: RwLock<Option<DebugLog>> = RwLock::new(None);
 
 pub fn log_start() {
+    // Determined before taking the lock: the first call of `compiler_version` may log, and a
+    // logger that forwards to this module (`MessageLogger`) needs the lock itself.
+    let version = crate::compiler_version().to_string();
+
     #[cfg(max_sixty_prql_verif)]
     let _v = crate::verif_hooks::rw("CURRENT_LOG", true);
     let mut lock = CURRENT_LOG.write().unwrap();
@@ -27,7 +31,7 @@ pub fn log_start() {
 
     *lock = Some(DebugLog {
         started_at,
-        version: crate::compiler_version().to_string(),
+        version,
         entries: Vec::new(),
 
         suppress_count: 0,
